@@ -1,5 +1,7 @@
 (* The assignment-word recogniser of the analyzer (Walker.is_assignment) against the grammar bash uses for
-   an assignment prefix:  NAME [ "[" SUB "]" ] [ "+" ] "=" VALUE,  NAME an ASCII identifier, SUB free of "]". *)
+   an assignment prefix:  NAME [ "[" SUB "]" ] [ "+" ] "=" VALUE,  NAME an ASCII identifier, SUB free of "[" and "]"
+   (bash matches brackets inside a subscript: a[[]=] is a command name, a[b[1]]=2 an assignment; the recogniser takes
+   neither for an assignment - the first is the repair of `a[[]=] ls`, the second is asked about). *)
 From DippyV Require Import Base.Str Model.Walker.
 Local Open Scope list_scope.
 
@@ -8,7 +10,8 @@ Inductive assignment_word : str -> Prop :=
     ident_start c = true -> forallb ident_char name = true -> (plus = [] \/ plus = [43]) ->
     assignment_word (c :: name ++ plus ++ 61 :: v)
 | aw_sub c name sub plus v :
-    ident_start c = true -> forallb ident_char name = true -> mem_ch 93 sub = false -> (plus = [] \/ plus = [43]) ->
+    ident_start c = true -> forallb ident_char name = true -> mem_ch 93 sub = false -> mem_ch 91 sub = false ->
+    (plus = [] \/ plus = [43]) ->
     assignment_word (c :: name ++ 91 :: sub ++ 93 :: plus ++ 61 :: v).
 
 Lemma skip_ident_split s : exists name t, s = name ++ t /\ forallb ident_char name = true /\ skip_ident s = t /\
@@ -39,16 +42,20 @@ Proof.
   - intros (plus & v & [-> | ->] & ->); reflexivity.
 Qed.
 
-Lemma after_bracket_spec s v : after_bracket s = Some v <-> exists sub, mem_ch 93 sub = false /\ s = sub ++ 93 :: v.
+Lemma after_bracket_spec s v : after_bracket s = Some v <->
+  exists sub, mem_ch 93 sub = false /\ mem_ch 91 sub = false /\ s = sub ++ 93 :: v.
 Proof.
   split.
   - revert v. induction s as [|c r IH]; cbn [after_bracket]; intros v; [discriminate|].
     destruct (N.eqb c 93) eqn:E.
-    + apply N.eqb_eq in E. subst. intro H. injection H as <-. exists []. split; reflexivity.
-    + intro H. destruct (IH _ H) as (sub & Hs & ->). exists (c :: sub). split; [|reflexivity].
-      cbn [mem_ch existsb]. unfold mem_ch in *. cbn [existsb]. rewrite N.eqb_sym, E. exact Hs.
-  - intros (sub & Hs & ->). induction sub as [|c sub IH]; cbn [after_bracket app]; [rewrite N.eqb_refl; reflexivity|].
-    unfold mem_ch in Hs. cbn [existsb] in Hs. apply orb_false_iff in Hs as [Hc Hs]. rewrite N.eqb_sym, Hc. apply IH. exact Hs.
+    + apply N.eqb_eq in E. subst. intro H. injection H as <-. exists []. split; [|split]; reflexivity.
+    + destruct (N.eqb c 91) eqn:E2; [discriminate|].
+      intro H. destruct (IH _ H) as (sub & Hs & Hs2 & ->). exists (c :: sub). split; [|split; [|reflexivity]].
+      * unfold mem_ch in *. cbn [existsb]. rewrite N.eqb_sym, E. exact Hs.
+      * unfold mem_ch in *. cbn [existsb]. rewrite N.eqb_sym, E2. exact Hs2.
+  - intros (sub & Hs & Hs2 & ->). induction sub as [|c sub IH]; cbn [after_bracket app]; [rewrite N.eqb_refl; reflexivity|].
+    unfold mem_ch in Hs, Hs2. cbn [existsb] in Hs, Hs2. apply orb_false_iff in Hs as [Hc Hs]. apply orb_false_iff in Hs2 as [Hc2 Hs2].
+    rewrite N.eqb_sym, Hc. rewrite N.eqb_sym, Hc2. apply IH; assumption.
 Qed.
 
 Lemma ident_char_61 : ident_char 61 = false. Proof. reflexivity. Qed.
@@ -64,17 +71,17 @@ Proof.
     destruct (N.eqb d 91) eqn:E.
     + apply N.eqb_eq in E. subst d. apply orb_true_iff in H as [H|H]; [|discriminate H].
       destruct (after_bracket u) as [v|] eqn:Ea; [|discriminate].
-      apply after_bracket_spec in Ea as (sub & Hsub & ->). apply assign_tail_spec in H as (plus & v' & Hp & ->).
+      apply after_bracket_spec in Ea as (sub & Hsub & Hsub2 & ->). apply assign_tail_spec in H as (plus & v' & Hp & ->).
       apply aw_sub; assumption.
     + apply assign_tail_spec in H as (plus & v & Hp & Heq). rewrite Heq. apply aw_plain; assumption.
-  - intros [c name plus v Hc Hn Hp | c name sub plus v Hc Hn Hs Hp]; cbn [is_assignment]; rewrite Hc; cbn [andb].
+  - intros [c name plus v Hc Hn Hp | c name sub plus v Hc Hn Hs Hs2 Hp]; cbn [is_assignment]; rewrite Hc; cbn [andb].
     + assert (Ht : skip_ident (name ++ plus ++ 61 :: v) = plus ++ 61 :: v)
         by (apply skip_ident_app; [exact Hn| destruct Hp as [-> | ->]; reflexivity]).
       rewrite Ht. destruct Hp as [-> | ->]; reflexivity.
     + rewrite (skip_ident_app name (91 :: sub ++ 93 :: plus ++ 61 :: v) Hn ident_char_91).
       cbn [N.eqb Pos.eqb]. replace (N.eqb 91 91) with true by reflexivity.
       assert (Ha : after_bracket (sub ++ 93 :: plus ++ 61 :: v) = Some (plus ++ 61 :: v))
-        by (apply after_bracket_spec; exists sub; split; [exact Hs|reflexivity]).
+        by (apply after_bracket_spec; exists sub; split; [exact Hs|split; [exact Hs2|reflexivity]]).
       rewrite Ha. assert (Hq : assign_tail (plus ++ 61 :: v) = true) by (apply assign_tail_spec; exists plus, v; split; [exact Hp|reflexivity]).
       rewrite Hq. reflexivity.
 Qed.
@@ -86,7 +93,26 @@ Proof. intro H. cbn [is_assignment]. rewrite H. reflexivity. Qed.
 Lemma assignment_has_eq w : is_assignment w = true -> mem_ch 61 w = true.
 Proof.
   intro H. apply is_assignment_spec in H. unfold mem_ch.
-  destruct H as [c name plus v _ _ _ | c name sub plus v _ _ _ _]; apply existsb_exists; exists 61; (split; [|reflexivity]).
+  destruct H as [c name plus v _ _ _ | c name sub plus v _ _ _ _ _]; apply existsb_exists; exists 61; (split; [|reflexivity]).
   - right. apply in_or_app. right. apply in_or_app. right. left. reflexivity.
   - right. apply in_or_app. right. right. apply in_or_app. right. right. apply in_or_app. right. left. reflexivity.
 Qed.
+
+(* repair of `a[[]=] ls` (bash matches brackets inside a subscript: the word is a command name): a word whose subscript,
+   read up to the first "]", holds a "[" is never taken for an assignment *)
+Lemma after_bracket_none sub r : mem_ch 91 sub = true -> mem_ch 93 sub = false -> after_bracket (sub ++ r) = None.
+Proof.
+  unfold mem_ch. induction sub as [|c sub IH]; cbn [existsb app after_bracket]; [discriminate|].
+  intros H1 H2. apply orb_false_iff in H2 as [Hc H2]. rewrite N.eqb_sym, Hc.
+  destruct (N.eqb c 91) eqn:E; [reflexivity|]. rewrite N.eqb_sym, E in H1. cbn [orb] in H1. apply IH; assumption.
+Qed.
+Lemma bracket_in_subscript_not_assignment c name sub v :
+  forallb ident_char name = true -> mem_ch 91 sub = true -> mem_ch 93 sub = false ->
+  is_assignment (c :: name ++ 91 :: sub ++ 93 :: v) = false.
+Proof.
+  intros Hn H1 H2. cbn [is_assignment]. destruct (ident_start c); [|reflexivity]. cbn [andb].
+  rewrite (skip_ident_app name (91 :: sub ++ 93 :: v) Hn ident_char_91).
+  replace (N.eqb 91 91) with true by reflexivity. rewrite (after_bracket_none sub (93 :: v) H1 H2). reflexivity.
+Qed.
+Example bracket_witness : is_assignment (s2l "a[[]=]") = false /\ is_assignment (s2l "a[1]=x") = true /\ is_assignment (s2l "a[b[1]]=2") = false.
+Proof. vm_compute. repeat split. Qed.
